@@ -58,7 +58,9 @@ PRES = ("absent", "longer", "shorter", "same")
 GOOD_NAMES = ("wl.gwl", "a b.gwl", "x.y.gwl", "w.gwl", "worklist-01_final.gwl")
 BAD_NAMES = ("wl.txt", "wl", "wlgwl", "wl.gw", "wl.csv", "gwl", "wl.g.w.l", "wl.gwl_"[:2] + ".lwg",
              # ".gwl" occurs in the name but is not its extension
-             "wl.gwl.txt", "wl.gwlx", "notes.gwl_old.csv", "wl.gwl.bak")
+             "wl.gwl.txt", "wl.gwlx", "notes.gwl_old.csv", "wl.gwl.bak",
+             # something follows the extension (a line feed pasted along with the name, a blank)
+             "wl.gwl\n", "wl.gwl ", "wl.gwl\t")
 # printable Latin-1 without ';' (field separator), CR/LF and the no-break space (stripped by comment())
 ALPHA = "abcdefgxyzABCXYZ0123456789 _-.,:()[]%/+*#=<>!?'\"" + "µäöüÄÖÜßÿéèêñçøåÅæ°±²³¼½¾×÷¡¿£¥§©®ª«»¬¶·¸¹º¤¦¨¯´ÐÞþðÿ"
 
